@@ -520,7 +520,10 @@ pub fn run_tuple_case(out: &mut Out, ndev: usize, history: &[Spec], a: &Spec, b:
     } else if ok {
         // `other segment untouched` is judged for a member only when the other member does not write that kind of memory
         let same_side = touches(a).iter().any(|r| touches(b).contains(r));
-        verdict = check_probe(&s.w, b, if same_side { &[] } else { &before_b }).map(|w| format!("second member: {w}")).or_else(|| check_probe(&s.w, a, if same_side { &[] } else { &before_a }).map(|w| format!("first member: {w}")));
+        verdict = check_probe(&s.w, b, if same_side { &[] } else { &before_b }).map(|w| format!("second member: {w}")).or_else(|| {
+            // members that write the same resource: the second one legitimately replaces what the first one wrote
+            if same_side { None } else { check_probe(&s.w, a, &before_a).map(|w| format!("first member: {w}")) }
+        });
     }
     out.case(if ok { Some(fnv64(format!("tuple|{}|{}|{}", ndev, a.text(), b.text()).as_bytes())) } else { None });
     out.count("probe:tuple");
